@@ -75,7 +75,7 @@ const (
 var stateNames = []string{"missing", "partial", "complete"}
 
 // genDay draws the blocks of a day in the given state. Complete days hold a block every five
-// minutes (288 blocks, 0-1 flows each); partial days hold 1-5 blocks, none within two hours of
+// minutes (288 blocks, 0-1 flows each) or are covered at both ends only (4-8 blocks); partial days hold 1-5 blocks, none within two hours of
 // either end of the day - or (one in four each) are covered from midnight but end at least four
 // hours early, or reach midnight but start at least two hours late, with blocks spaced unevenly -,
 // so the classification never depends on the tolerance arithmetic.
@@ -98,6 +98,23 @@ func genDay(t *sim.Tape, day int64, state int, tag byte) []model.Block {
 	}
 	switch state {
 	case complete:
+		if t.Draw(2) == 0 {
+			// covered at both ends (blocks five minutes apart at the start and at the end of the
+			// day), with holes of hours in between: a complete day by the documented rule
+			seen := map[int64]bool{}
+			for _, ts := range []int64{day, day + 300, day + 86400 - 600, day + 86400 - 300} {
+				seen[ts] = true
+				out = append(out, mk(ts))
+			}
+			for i, n := 0, t.Draw(5); i < n; i++ {
+				if ts := day + 600 + 300*int64(t.Draw(284)); !seen[ts] {
+					seen[ts] = true
+					out = append(out, mk(ts))
+				}
+			}
+			sort.Slice(out, func(i, j int) bool { return out[i].TS < out[j].TS })
+			break
+		}
 		for k := int64(0); k < 288; k++ {
 			out = append(out, mk(day+300*k))
 		}
